@@ -14,15 +14,24 @@ func VerifC11Snapshot()  { c11Snapshot(2, false) }
 func VerifC11Snapshot3() { c11Snapshot(3, false) }
 func VerifC11DupBounds() { c11Snapshot(2, true) }
 
+// VerifC11Override: the derived scope overrides the root's tag value (same prefix, same
+// number of tags) - its entries must carry its own tags.
+func VerifC11Override() { c11Override = true; c11Snapshot(2, false) }
+
+var c11Override bool
+
 func c11Snapshot(steps int, dup bool) {
 	prefix := verifrt.String("prefix", verifrt.Choose("plen", 2))
 	verifrt.Class("a-string-contains-a-key-delimiter(,=+)", hasDelim(prefix))
 	ts := NewTestScope(prefix, map[string]string{"r": "1"})
 	sub := ts.SubScope("s").Tagged(map[string]string{"t": "2"})
+	if c11Override {
+		sub = ts.Tagged(map[string]string{"r": "2"})
+	}
 	scopes := []Scope{ts, sub}
 	fq := func(k int, name string) string {
 		p := prefix
-		if k == 1 {
+		if k == 1 && !c11Override {
 			if p == "" {
 				p = "s"
 			} else {
@@ -35,6 +44,9 @@ func c11Snapshot(steps int, dup bool) {
 		return p + "." + name
 	}
 	tagsOf := func(k int) map[string]string {
+		if k == 1 && c11Override {
+			return map[string]string{"r": "2"}
+		}
 		if k == 1 {
 			return map[string]string{"r": "1", "t": "2"}
 		}
@@ -112,7 +124,7 @@ func c11Snapshot(steps int, dup bool) {
 				verifrt.Emit("c", e.Value())
 				verifrt.Assert("c11.counter-is-sum", e.Value() == cSum[k])
 				verifrt.Assert("c11.counter-name", e.Name() == fq(k, "c"))
-				verifrt.Assert("c11.counter-tags", len(e.Tags()) == len(tags) && e.Tags()["r"] == "1" && (k == 0 || e.Tags()["t"] == "2"))
+				verifrt.Assert("c11.counter-tags", len(e.Tags()) == len(tags) && e.Tags()["r"] == tags["r"] && (k == 0 || c11Override || e.Tags()["t"] == "2"))
 				// modifying the snapshot does not affect the scope
 				e.Tags()["r"] = "changed"
 			}
@@ -178,7 +190,7 @@ func c11Snapshot(steps int, dup bool) {
 			e, ok := again.Counters()[KeyForPrefixedStringMap(fq(k, "c"), tagsOf(k))]
 			verifrt.Assert("c11.later-snapshot-entry", ok)
 			if ok {
-				verifrt.Assert("c11.snapshot-modification-does-not-leak", e.Tags()["r"] == "1")
+				verifrt.Assert("c11.snapshot-modification-does-not-leak", e.Tags()["r"] == tagsOf(k)["r"])
 			}
 		}
 		if tSeen[k] {
